@@ -113,7 +113,10 @@ def parse(path: str, dialect: DialectType = None) -> exp.JSONPath:
             number += token.text
 
         if number:
-            return int(number)
+            try:
+                return int(number)
+            except ValueError:
+                raise ParseError(_error(f"Invalid number {number}"))
 
         return False
 
